@@ -165,7 +165,7 @@ def _make_prior(case, target: str, root: str) -> None:
     prior = case.get("prior", "none")
     if prior == "none":
         return
-    if prior in ("catalog", "catalog_trees"):
+    if prior in ("catalog", "catalog_trees", "catalog_reopened"):
         old = wl.gen_records(
             case["data"]["data_seed"] + 991, 23, region="box", has_w=True, has_z=True,
             zedges=[0.1, 0.5, 1.0], zpad=-0.01, edge_frac=0.0,
@@ -178,6 +178,12 @@ def _make_prior(case, target: str, root: str) -> None:
             )
             if prior == "catalog_trees":
                 cat.build_trees([0.1, 1.0])
+            if prior == "catalog_reopened":
+                # the session has already used the old cache: restored it and read its data
+                old_cat = yaw.Catalog(target, max_workers=1)
+                for patch in old_cat.values():
+                    patch.load_data()
+                old_cat.get_centers()
     elif prior == "junkdir":
         os.makedirs(os.path.join(target, "sub"))
         with open(os.path.join(target, "notes.txt"), "w") as f:
